@@ -415,13 +415,13 @@ def evaluate__lang(self: XPathFunction, context: ta.ContextType = None) -> bool:
             return False
         lang = attr.strip()
 
-        if '-' in lang:
-            lang, _ = lang.split('-')
-
         value = self[0].evaluate()
         if not isinstance(value, str):
             return False
-        return lang.lower() == value.lower()
+
+        # XPath 1.0 4.3: equal ignoring case, or equal after ignoring a suffix that starts with '-'
+        lang, value = lang.lower(), value.lower()
+        return lang == value or lang.startswith(value + '-')
 
 
 ###
